@@ -57,7 +57,7 @@ where
     }
 
     fn is_null(&self) -> bool {
-        self.is_none()
+        self.as_ref().map_or(true, |v| v.is_null())
     }
 }
 
@@ -408,6 +408,9 @@ where
     }
     fn to_mysql_bin<W: Write>(&self, w: &mut W, c: &Column) -> io::Result<()> {
         (*self).to_mysql_bin(w, c)
+    }
+    fn is_null(&self) -> bool {
+        (*self).is_null()
     }
 }
 
